@@ -3,7 +3,7 @@
 From Model Require Import Bytes Prim Tables Cert KAC Mapping Sig LS RI Validate.
 From Gen Require Import Tables Validators.
 From Coq Require Import Lia.
-From Proofs Require Import BytesLemmas CtorProofs MappingProofs CtorRT ValidatorTie ElsChain LS2Layers Retail SpecRI LS2Accept MetaAccept LSStrip.
+From Proofs Require Import BytesLemmas CtorProofs MappingProofs CtorRT ValidatorTie ElsChain LS2Layers Retail SpecRI LS2Accept MetaAccept LSStrip GuardTie.
 Open Scope Z_scope.
 
 Theorem C14_signature : forall d t s, new_signature_from_bytes d t = Ok s ->
@@ -276,3 +276,14 @@ Theorem C14_router_info_built_value_parses_back : forall (s c : N) (cl sl : nat)
   exists i, read_router_info b = Ok (i, []) /\ router_info_bytes i = Ok b.
 Proof. exact spec_router_info_parses_back. Qed.
 Print Assumptions C14_router_info_built_value_parses_back.
+
+(* the constructors' own argument guards, regenerated from their Go bodies: what validateCertType /
+   validateCertPayload refuse, NewCertificateWithType refuses; what validatePaddingSize refuses,
+   NewKeysAndCert refuses *)
+Theorem C14_source_constructor_guards :
+  (forall t payload, g_certificate_validateCertType t && g_certificate_validateCertPayload t payload = false ->
+                     new_certificate_with_type t payload = Err) /\
+  (forall kc p pad s, g_keys_and_cert_validatePaddingSize pad (kc_crypto_size_of kc) (kc_signing_pubkey_size kc) = false ->
+                      new_keys_and_cert kc p pad s = Err).
+Proof. split; [exact cert_ctor_guards|exact kac_padding_size_rejects]. Qed.
+Print Assumptions C14_source_constructor_guards.
